@@ -83,7 +83,7 @@ def attrs (ty cls : String) : Option Attrs :=
       some { py := .float, whole := cls == "float1" || cls == "float-integral" || cls == "negzero" }
   | "float-fractional" | "float-neg-fractional" => some { py := .float, whole := false }
   | "nan" | "inf" => some { py := .float, finite := false, whole := false }
-  | "overflow" | "neg-overflow" => some { py := .float, f32over := true }
+  | "overflow" | "neg-overflow" | "near-overflow" => some { py := .float, f32over := true }
   | "decimal-integral" => some { py := .decimal }
   | "decimal-fractional" => some { py := .decimal, whole := false }
   | "str" | "ascii" | "unicode" | "nul" | "uuid" => some { py := .str }
@@ -123,7 +123,7 @@ def arrowExact : List (String × String) := [
 
 def arrowLossy : List (String × String) := [
   ("int","float-fractional"),("long","float-fractional"),("long","float-neg-fractional"),("long","decimal-fractional"),
-  ("float","overflow"),("float","neg-overflow"),("date","datetime-with-time")]
+  ("float","overflow"),("float","neg-overflow"),("float","near-overflow"),("date","datetime-with-time")]
 
 def arrowRejects : List (String × String) := [
   ("boolean","int1"),("boolean","str"),("boolean","float1"),
